@@ -438,6 +438,29 @@ fn random(args: &Args) {
     let mk_act = |op: &str, s: &str, k: &str, val: &str, b: bool, flag: bool, es: Vec<(String, String)>, n: u64| Act {
         op: op.into(), s: s.into(), k: k.into(), v: val.into(), b, flag, es, n,
     };
+    // sweep: every real key k on its own (window = k and its successor): written by a market keeper,
+    // marked updatable, written by a market-config keeper directly and through a buffer
+    for i in 0..env.all_keys.len() {
+        let mut w = base.clone();
+        histories += 1;
+        let keys: Vec<String> = vec![env.all_keys[i].clone(), env.all_keys[(i + 1) % env.all_keys.len()].clone()];
+        keys_used.extend(keys.iter().cloned());
+        let flags = env.all_flags.clone();
+        env.set_window(&w, keys.clone(), flags);
+        let k = keys[0].as_str();
+        let script = vec![
+            mk_act("update", "mk", k, "7", false, false, vec![], 0),
+            mk_act("update", "mck", k, "8", false, false, vec![], 0),
+            mk_act("set_updatable", "mk", k, "", true, false, vec![], 0),
+            mk_act("update", "mck", k, "9", false, false, vec![], 0),
+            mk_act("init_buffer", "mck", "", "", false, false, vec![], 100),
+            mk_act("push_buffer", "mck", "", "", false, false, vec![(k.to_string(), "11".to_string())], 0),
+            mk_act("with_buffer", "mck", "", "", false, false, vec![], 0),
+        ];
+        for (j, a) in script.iter().enumerate() {
+            env.event(&mut w, a, j == 0, &mut sink);
+        }
+    }
     while sink.n < n {
         let mut w = base.clone();
         histories += 1;
